@@ -654,11 +654,16 @@ inline bool packLegal(CircuitSpec &s, Tape &t) {
 // ---------------------------------------------------------------------------
 /// A large instance (up to 300 movable cells, 24 row levels) derived from one word.
 inline CircuitSpec genLargeCircuit(uint32_t word, GenOpts o, int maxCells = 300) {
-  Tape big = expandTape(word, 6000);
   o.maxCells = maxCells;
   o.maxLevels = 24;
   o.overfull = false;
-  CircuitSpec s = genCircuit(big, o);
+  // the generator's area budget often stops well before maxCells: take the largest of six draws
+  CircuitSpec s;
+  for (uint64_t k = 0; k < 6; ++k) {
+    Tape big = expandTape((uint64_t)word + (k << 32), 6000);
+    CircuitSpec c = genCircuit(big, o);
+    if (k == 0 || c.nbMovable() > s.nbMovable()) s = c;
+  }
   s.labels.insert("size:large-companion");
   return s;
 }
